@@ -39,6 +39,28 @@ import (
 
 var ctx = context.Background()
 
+// faultDS is a DAGService whose writes can be made to fail (store-write fault injection).
+type faultDS struct {
+	ipld.DAGService
+	fail bool
+}
+
+var errInjected = errors.New("injected store write failure")
+
+func (f *faultDS) Add(c context.Context, n ipld.Node) error {
+	if f.fail {
+		return errInjected
+	}
+	return f.DAGService.Add(c, n)
+}
+
+func (f *faultDS) AddMany(c context.Context, ns []ipld.Node) error {
+	if f.fail {
+		return errInjected
+	}
+	return f.DAGService.AddMany(c, ns)
+}
+
 // goViolate records a violation of the map specification found by the Go-side oracle.
 var goViolate func(desc string, replay any)
 
@@ -472,6 +494,32 @@ func runHistory(t *testing.T, r *rand.Rand, p *pool, c config, nm *names, nops i
 		emit(vh.App("OAdd", nameCoq(name), p.valOfNode(vi).coq(), vh.Bool(o)), vh.App("BRes", cls),
 			fmt.Sprintf("add %q %d -> %s", name, vi, cls))
 	}
+	// AddChild while the DAG service refuses every write.  A directory that does not write the child
+	// (BasicDirectory) simply succeeds: an ordinary add.  An AddChild that reports the store error must
+	// leave the map as it was (model op OAddFail: nothing changes).
+	doAddFail := func(name string, vi int) {
+		fds, ok := p.ds.(*faultDS)
+		if !ok {
+			return
+		}
+		before := isHamt(d)
+		fds.fail = true
+		err := d.AddChild(ctx, name, p.nodes[vi])
+		fds.fail = false
+		h.kinds["storefault"]++
+		if errors.Is(err, errInjected) {
+			emit(vh.App("OAddFail", nameCoq(name), p.valOfNode(vi).coq()), "(BRes (Some EOther))",
+				fmt.Sprintf("add %q %d with failing store -> store error", name, vi))
+			return
+		}
+		cls := errClass(err)
+		if err == nil {
+			present[name] = true
+		}
+		o := oracle(before, isHamt(d), cls)
+		emit(vh.App("OAdd", nameCoq(name), p.valOfNode(vi).coq(), vh.Bool(o)), vh.App("BRes", cls),
+			fmt.Sprintf("add %q %d with failing store -> %s", name, vi, cls))
+	}
 	listing := func() string {
 		ls, err := d.Links(ctx)
 		if err != nil {
@@ -594,6 +642,10 @@ func runHistory(t *testing.T, r *rand.Rand, p *pool, c config, nm *names, nops i
 				var vi int
 				fmt.Sscan(f[2], &vi)
 				doAdd(f[1], vi)
+			case "addfail":
+				var vi int
+				fmt.Sscan(f[2], &vi)
+				doAddFail(f[1], vi)
 			case "rm":
 				doRemove(f[1])
 			case "find":
@@ -638,6 +690,11 @@ func runHistory(t *testing.T, r *rand.Rand, p *pool, c config, nm *names, nops i
 			addW, rmW = 12, 45
 		}
 		switch {
+		case x < addW && r.Intn(10) == 0: // the store refuses the write
+			doAddFail(pickName(r.Intn(2) == 0), r.Intn(len(p.nodes)))
+			if r.Intn(2) == 0 {
+				doList(r.Intn(3))
+			}
 		case x < addW:
 			if r.Intn(4) == 0 {
 				doAdd(pickName(true), r.Intn(len(p.nodes))) // replace
@@ -820,7 +877,7 @@ func TestC15(t *testing.T) {
 	defer func() { goViolate = nil }()
 	cs := vh.NewCases(e, "From V Require Import model.M_C15.\nOpen Scope Z_scope.\nOpen Scope string_scope.", "case", "check_case", 40)
 	r := e.Rng
-	ds := mdtest.Mock()
+	ds := &faultDS{DAGService: mdtest.Mock()}
 	p := newPool(ds, 24)
 	sorted := murmurSorted(e.Pick(60000, 300000))
 
@@ -881,6 +938,32 @@ func TestC15(t *testing.T) {
 			}
 			script = append(script, "rm n00", "dump")
 			addHist(runHistory(t, r, p, c, nm, 0, script), nm, "corpus")
+		}
+	}
+
+	// ---- directed: store-write faults (seeded change C15-4): AddChild of a new name and of an existing name while
+	// the DAG service refuses writes, on basic, HAMT and dynamic directories; an AddChild that reports the error
+	// must leave listing, Find and later RemoveChild as they were ----
+	{
+		nm := &names{digest: map[string][]byte{}}
+		for _, n := range []string{"n00", "n01", "n02", "n03", "new1", "new2"} {
+			nm.list = append(nm.list, n)
+			nm.digest[n] = hamt.VerifHashOf(n)
+		}
+		sc := []string{"add n00 0", "add n01 3", "add n02 6", "addfail new1 4", "links", "foreach", "enum", "find new1", "rm new1",
+			"addfail n01 9", "find n01", "links", "dump", "add n03 1", "addfail new2 5", "rm new2", "reload", "addfail new2 5",
+			"foreach", "find new2", "rm n00", "addfail n00 2", "find n00", "rm n00", "dump"}
+		for _, w := range []int{8, 256} {
+			for _, c := range []config{
+				{width: w, mode: uio.SizeEstimationLinks, global: 256 * 1024, kind: 1, hamt0: true}, // pure HAMT
+				{width: w, mode: uio.SizeEstimationLinks, global: 256 * 1024, kind: 2},              // pure basic
+				{width: w, mode: uio.SizeEstimationLinks, thresh: 60, global: 256 * 1024},           // dynamic, sharded early
+				{width: w, mode: uio.SizeEstimationBlock, thresh: 150, global: 256 * 1024},          // dynamic, converts around the faults
+				{width: w, mode: uio.SizeEstimationDisabled, maxLinks: 2, global: 256 * 1024},       // dynamic, sharded by MaxLinks
+				{width: w, mode: uio.SizeEstimationLinks, thresh: 5000, global: 256 * 1024},         // dynamic, stays basic
+			} {
+				addHist(runHistory(t, r, p, c, nm, 0, sc), nm, "directed-storefault")
+			}
 		}
 	}
 
